@@ -147,7 +147,14 @@ func forConsumeLabels(f *forExpander) forStateFn {
 			f.next()
 			return forConsumeLabels
 		}
-	} else if f.nextToken.typ == tokNewline || f.nextToken.typ == tokComment || f.nextToken.typ == tokColon {
+	} else if f.nextToken.typ == tokComment {
+		// a comment between a label and its line may be an ;assert or a
+		// ;name line: keep it, on a line of its own
+		f.tokens <- f.nextToken
+		f.tokens <- token{typ: tokNewline}
+		f.next()
+		return forConsumeLabels
+	} else if f.nextToken.typ == tokNewline || f.nextToken.typ == tokColon {
 		f.next()
 		return forConsumeLabels
 	} else {
